@@ -89,20 +89,35 @@ def prod(a, axis=None, dtype=None, keepdims=False, split_every=None, out=None):
     )
 
 
+def _no_candidates(x, axis):
+    """What an extremum over a block that is empty along a reduced axis
+    contributes: nothing along that axis (length 0, so concatenating it with
+    the other blocks' results adds no candidate), length 1 along the other
+    reduced axes and the kept axes as they are.  ``None`` if the block has
+    something to reduce over."""
+    axes = range(x.ndim) if axis is None else axis if isinstance(axis, (tuple, list)) else (axis,)
+    axes = {a % x.ndim for a in axes}
+    if 0 not in [x.shape[a] for a in axes]:  # (this module's ``any`` is the reduction)
+        return None
+    return np.empty_like(x, shape=tuple((1 if s else 0) if i in axes else s for i, s in enumerate(x.shape)))
+
+
 def chunk_min(x, axis=None, keepdims=None):
     """Version of np.min which ignores size 0 arrays"""
     if x.size == 0:
-        return array_safe([], x, ndmin=x.ndim, dtype=x.dtype)
-    else:
-        return np.min(x, axis=axis, keepdims=keepdims)
+        empty = _no_candidates(x, axis)
+        if empty is not None:
+            return empty
+    return np.min(x, axis=axis, keepdims=keepdims)
 
 
 def chunk_max(x, axis=None, keepdims=None):
     """Version of np.max which ignores size 0 arrays"""
     if x.size == 0:
-        return array_safe([], x, ndmin=x.ndim, dtype=x.dtype)
-    else:
-        return np.max(x, axis=axis, keepdims=keepdims)
+        empty = _no_candidates(x, axis)
+        if empty is not None:
+            return empty
+    return np.max(x, axis=axis, keepdims=keepdims)
 
 
 @derived_from(np)
@@ -207,21 +222,27 @@ def nanprod(a, axis=None, dtype=None, keepdims=False, split_every=None, out=None
 
 
 def _nanmin_skip(x_chunk, axis, keepdims):
-    if x_chunk.size > 0:
-        with warnings.catch_warnings():
-            warnings.filterwarnings("ignore", "All-NaN slice encountered", RuntimeWarning)
-            return np.nanmin(x_chunk, axis=axis, keepdims=keepdims)
-    else:
-        return asarray_safe(np.array([], dtype=x_chunk.dtype), like=meta_from_array(x_chunk))
+    if x_chunk.size == 0:
+        empty = _no_candidates(x_chunk, axis) if keepdims else asarray_safe(
+            np.array([], dtype=x_chunk.dtype), like=meta_from_array(x_chunk)
+        )
+        if empty is not None:
+            return empty
+    with warnings.catch_warnings():
+        warnings.filterwarnings("ignore", "All-NaN slice encountered", RuntimeWarning)
+        return np.nanmin(x_chunk, axis=axis, keepdims=keepdims)
 
 
 def _nanmax_skip(x_chunk, axis, keepdims):
-    if x_chunk.size > 0:
-        with warnings.catch_warnings():
-            warnings.filterwarnings("ignore", "All-NaN slice encountered", RuntimeWarning)
-            return np.nanmax(x_chunk, axis=axis, keepdims=keepdims)
-    else:
-        return asarray_safe(np.array([], dtype=x_chunk.dtype), like=meta_from_array(x_chunk))
+    if x_chunk.size == 0:
+        empty = _no_candidates(x_chunk, axis) if keepdims else asarray_safe(
+            np.array([], dtype=x_chunk.dtype), like=meta_from_array(x_chunk)
+        )
+        if empty is not None:
+            return empty
+    with warnings.catch_warnings():
+        warnings.filterwarnings("ignore", "All-NaN slice encountered", RuntimeWarning)
+        return np.nanmax(x_chunk, axis=axis, keepdims=keepdims)
 
 
 @derived_from(np)
